@@ -80,14 +80,32 @@ def gen_cases(tier, seed):
     for _ in range(n_alpha):
         n = 4 + rng.below(9)
         cases.append(("alphabet-random", [rng.choice(ALPHABET) for _ in range(n)]))
+    # multi-line tokens: each container with 1..3 line breaks of every kind inside, then more tokens
+    containers = [("#-", "-#"), ("'", "'"), ('"', '"'), ("r'", "'"), ('r#"', '"#'), ("'a{", "}b'"), ("#- #- ", " -# -#"),
+                  ("# ", ""), ("x = (", ")"), ("'\\", "'")]
+    seps = ["\n", "\r\n", "\r"]
+    bodies = ["", "a", " b ", "  ", "é"]
+    for op, cl in containers:
+        for k in (1, 2, 3):
+            for combo in itertools.product(seps, repeat=k):
+                if k == 3 and tier == "quick" and rng.below(3):
+                    continue
+                txt = op
+                for sep in combo:
+                    txt += rng.choice(bodies) + sep + rng.choice(bodies)
+                txt += cl
+                for tail in (" y", "\n  z = 1", "\r\n\tw"):
+                    cases.append(("multiline-token", [ord(c) for c in "  " * rng.below(2) + txt + tail]))
     segs = repo_segments(40 if tier == "quick" else 100000)
     if tier == "quick":
         # a seeded sample of the repository's own files
         pick = [segs[rng.below(len(segs))] for _ in range(min(150, len(segs)))] if segs else []
     else:
         pick = segs
-    for s in pick:
+    for i, s in enumerate(pick):
         cases.append(("repo", [ord(c) for c in s]))
+        if i % 5 == 0:
+            cases.append(("repo-crlf", [ord(c) for c in s.replace("\n", "\r\n")]))
     return cases
 
 
@@ -293,7 +311,7 @@ def run(tier, seed):
           "tables dumped from the crates koto links; inputs on which the grapheme rule disagrees with the crate are dropped",
           "kh_lex (Rust harness) and checks/c09.py (comparison, D-predicates)"]
     return chk.finish(
-        rule="strings: committed corpus + exhaustive up to length k over a 25-symbol mode alphabet + seeded token soup + "
+        rule="strings: committed corpus + exhaustive up to length k over a 25-symbol mode alphabet + seeded token soup + multi-line tokens with LF/CRLF/CR inside + "
              "seeded samples of /repo's .koto/.md text; non-trivial = token stream has >= 2 distinct token kinds; "
              "distinct by code-point list",
         explanation="theorems over the lexer model for all strings; exact model-vs-implementation token-stream equality; "
